@@ -281,17 +281,20 @@ Lemma splice_fill_gen c k : forall budget ts p w v u,
     = Ok (w + N.of_nat (Nat.min budget (length ts)),
           map (fun t => honest_item c t k) (skipn budget ts))
          (with_mem (mwrite (p * szn c) (flat (szn c) (firstn budget ts)) (vmem v)) v, u') /\
-    ulog u' = repeat ENext n ++ ulog u /\ unext u' = unext u /\ ufuse u' = None.
+    ulog u' = repeat ENext n ++ ulog u /\ unext u' = unext u /\ ufuse u' = None /\
+    n = Nat.min budget (S (length ts)).
 Proof.
   induction budget as [|b IH]; intros ts p w v u Hst Hle Hf.
   - exists u, 0%nat. cbn [splice_fill firstn skipn flat repeat app Nat.min].
-    rewrite mwrite_nil, with_mem_id. unfold ret. rewrite N.add_0_r. auto.
+    rewrite mwrite_nil, with_mem_id. unfold ret. rewrite N.add_0_r. auto 6.
   - destruct ts as [|t ts].
     + exists (emit ENext u), 1%nat. cbn [length map splice_fill firstn skipn flat Nat.min].
       rewrite (bind_ok _ _ (v, u) tt (v, emit ENext u)) by reflexivity.
       rewrite (bind_ok _ _ _ tt (v, emit ENext u))
         by (apply unwinding_ok, user_call_ok; exact Hf).
-      rewrite mwrite_nil, with_mem_id. unfold ret. rewrite N.add_0_r. auto.
+      rewrite mwrite_nil, with_mem_id. unfold ret. rewrite N.add_0_r.
+      split; [reflexivity|]. split; [reflexivity|]. split; [reflexivity|]. split; [exact Hf|].
+      cbn [length]. lia.
     + cbn [length Nat.min] in Hle. cbn [length map splice_fill firstn skipn Nat.min].
       rewrite (bind_ok _ _ (v, u) tt (v, emit ENext u)) by reflexivity.
       rewrite (bind_ok _ _ _ tt (v, emit ENext u))
@@ -306,12 +309,12 @@ Proof.
       replace (p * szn c + szn c)%nat with ((p + 1) * szn c)%nat by lia.
       destruct (IH ts (p + 1)%nat (w + 1)
                   (with_mem (mwrite (p * szn c) (enc (szn c) t) (vmem v)) v) (emit ENext u))
-        as [u' [n [E [L [Nx F]]]]].
+        as [u' [n [E [L [Nx [F Hn]]]]]].
       * unfold store_ok. cbn [vcap vmem with_mem]. rewrite mwrite_length; [exact Hst|].
         rewrite enc_length. exact Hb.
       * cbn [vcap with_mem]. lia.
       * exact Hf.
-      * exists u', (S n). split; [|split; [|split]]; auto.
+      * exists u', (S n). split; [|split; [|split; [exact Nx|split; [exact F|cbn [length]; lia]]]].
         -- rewrite E. cbn [vmem with_mem flat].
            replace ((p + 1) * szn c)%nat with (p * szn c + length (enc (szn c) t))%nat
              by (rewrite enc_length; lia).
@@ -336,7 +339,7 @@ Proof. induction n as [|n IH]; cbn [repeat filter is_drop]; auto. Qed.
 
 (** ** Lying replacement iterators (C06): Splice::drop never trusts the claimed length.
     The iterator yields [ts] but claims [cl]; values are owned honest items. *)
-Theorem splice_drop_liar c v u xs s e i j known ts k cl :
+Theorem splice_drop_liar_full c v u xs s e i j known ts k cl :
   cfg_wf c -> RangeAlive c v xs s e i j -> ufuse u = None ->
   Forall (tok_ok (szn c)) ts ->
   let new_len := (s + cl + (length xs - e))%nat in
@@ -348,15 +351,18 @@ Theorem splice_drop_liar c v u xs s e i j known ts k cl :
     splice_drop c known d (N.of_nat cl) (map (fun t => honest_item c t k) ts) (v, u)
       = Ok tt (v', u') /\
     (* exactly the first [written] items went in; the others were destroyed, once each *)
-    Rep c v' (sp_splice s e (firstn written ts) xs) /\ ufuse u' = None /\
-    filter (fun ev => match ev with EDrop _ => true | _ => false end) (uevents u')
-    = (if c_dg c then rev (map EDrop (skipn written ts)) else [])
-      ++ (if c_dg c then rev (map EDrop (firstn (j - i) (skipn i xs))) else [])
-      ++ filter (fun ev => match ev with EDrop _ => true | _ => false end) (uevents u).
+    Rep c v' (sp_splice s e (firstn written ts) xs) /\ vbk v' = vbk v /\
+    unext u' = unext u /\ ufuse u' = None /\
+    (* the iterator is asked [cl] times, or until it first answers None *)
+    uevents u' = (if c_dg c then rev (map EDrop (skipn written ts)) else [])
+                 ++ repeat ENext (Nat.min cl (S (length ts)))
+                 ++ (if c_dg c then rev (map EDrop (firstn (j - i) (skipn i xs))) else [])
+                 ++ uevents u /\
+    (N.of_nat new_len <= vcap v -> vcap v' = vcap v).
 Proof.
   intros Hwf HA Hf Htoks new_len Hroom d written.
   destruct (splice_prep_ok c v u xs s e i j known cl Hwf HA Hf Hroom)
-    as [v2 [u2 [E2 [Hl2 [Hc2 [Hus2 [Hst2 [Hp2 [Ht2 [Hb2 [Hn2 [Hf2 [He2 _]]]]]]]]]]]]].
+    as [v2 [u2 [E2 [Hl2 [Hc2 [Hus2 [Hst2 [Hp2 [Ht2 [Hb2 [Hn2 [Hf2 [He2 Hcap2]]]]]]]]]]]]].
   fold new_len in Hc2.
   destruct HA as [Hle Hlen Hcap Hus Hst Hp Hm Ht Htok].
   destruct Hle as [Hsi [Hij [Hje Hel]]].
@@ -367,7 +373,7 @@ Proof.
   assert (Hwcl : (written <= cl)%nat) by (unfold written; lia).
   assert (HtokW : Forall (tok_ok (szn c)) W) by (apply Forall_firstn'; exact Htoks).
   (* 3. fill *)
-  destruct (splice_fill_gen c k cl ts s 0 v2 u2 Hst2) as [u3 [n [E3 [L3 [N3 F3]]]]];
+  destruct (splice_fill_gen c k cl ts s 0 v2 u2 Hst2) as [u3 [n [E3 [L3 [N3 [F3 Hn3]]]]]];
     [fold written; unfold new_len in Hc2; lia | exact Hf2 |].
   fold written in E3. fold W in E3.
   set (v3 := with_mem (mwrite (s * szn c) (flat (szn c) W) (vmem v2)) v2) in *.
@@ -400,13 +406,13 @@ Proof.
                        (drop_items c rest)
      else ret tt) (v3, u3) = Ok tt (v4, u3) /\
     store_ok c v4 /\ Held c v4 0 (firstn s xs ++ W) /\ Held c v4 (s + written) tail /\
-    vcap v4 = vcap v2).
+    vcap v4 = vcap v2 /\ vbk v4 = vbk v2).
   { destruct (N.ltb_spec (0 + N.of_nat written) (N.of_nat cl)) as [Hlt' | Hge'].
     - destruct (moved_state c v3 (firstn s xs ++ W) tail (s + written) Hst3)
         as [Hst4 [Hp4 Ht4]]; auto.
       + cbn [vcap with_mem v3]. unfold new_len in Hc2. lia.
       + rewrite app_length. lia.
-      + eexists. split; [|split; [exact Hst4|split; [exact Hp4|split; [exact Ht4|reflexivity]]]].
+      + eexists. split; [|split; [exact Hst4|split; [exact Hp4|split; [exact Ht4|split; reflexivity]]]].
         apply unwinding_ok.
         rewrite (move_elements_ok c v3 u3 (N.of_nat s + N.of_nat cl)
                    (N.of_nat s + (0 + N.of_nat written))
@@ -419,15 +425,15 @@ Proof.
         * replace (N.to_nat (N.of_nat s + N.of_nat cl)) with (s + cl)%nat by lia. exact Ht3.
     - exists v3. assert (written = cl) by lia.
       split; [reflexivity|]. split; [exact Hst3|]. split; [exact Hpw3|].
-      split; [|reflexivity]. replace (s + written)%nat with (s + cl)%nat by lia. exact Ht3. }
-  destruct Hgap as [v4 [E4 [Hst4 [Hp4 [Ht4 Hc4]]]]].
+      split; [|split; reflexivity]. replace (s + written)%nat with (s + cl)%nat by lia. exact Ht3. }
+  destruct Hgap as [v4 [E4 [Hst4 [Hp4 [Ht4 [Hc4 Hbk4]]]]]].
   (* the items never pulled are destroyed *)
   set (v5 := with_len (N.of_nat s + (0 + N.of_nat written)
                        + (N.of_nat (length xs) - N.of_nat e)) v4).
   destruct (drop_items_ok c k v5 (skipn cl ts) u3 F3) as [u5 [E5 [L5 [N5 F5]]]].
   fold rest in E5.
   exists v5, u5.
-  split; [|split; [|split]].
+  split; [|split; [|split; [|split; [|split; [|split]]]]].
   - unfold splice_drop, d. cbn [dcur ci ce dend dstart dorig].
     rewrite (bind_ok _ _ _ _ _ (unwinding_ok _ _ _ _ _ E2)).
     rewrite bo_of_nat, Nat2N.id.
@@ -444,11 +450,39 @@ Proof.
       rewrite app_length, Hlp, HlW. exact Ht4.
     + apply Forall_app. split; [apply Forall_firstn'; exact Htok|].
       apply Forall_app. split; [exact HtokW | apply Forall_skipn'; exact Htok].
+  - unfold v5. cbn [vbk with_len]. rewrite Hbk4. exact Hb2.
+  - rewrite N5, N3. exact Hn2.
   - exact F5.
-  - change (fun ev : event => match ev with EDrop _ => true | _ => false end) with is_drop.
-    replace (skipn written ts) with (skipn cl ts)
+  - replace (skipn written ts) with (skipn cl ts)
       by (unfold written; symmetry; apply skipn_min_len).
     unfold uevents at 1. rewrite L5, uevents_drops, L3, uevents_nexts.
-    fold (uevents u2). rewrite He2.
-    rewrite !filter_app, !filter_drops_drops, filter_drops_nexts. reflexivity.
+    fold (uevents u2). rewrite He2, Hn3. reflexivity.
+  - intros Hle'. unfold v5. cbn [vcap with_len]. rewrite Hc4. apply Hcap2. exact Hle'.
+Qed.
+
+Theorem splice_drop_liar c v u xs s e i j known ts k cl :
+  cfg_wf c -> RangeAlive c v xs s e i j -> ufuse u = None ->
+  Forall (tok_ok (szn c)) ts ->
+  let new_len := (s + cl + (length xs - e))%nat in
+  (N.of_nat new_len <= vcap v \/ grow_ok c v (N.of_nat new_len)) ->
+  let d := {| dcur := {| ci := N.of_nat i; ce := N.of_nat j |};
+              dstart := N.of_nat s; dend := N.of_nat e; dorig := N.of_nat (length xs) |} in
+  let written := Nat.min cl (length ts) in
+  exists v' u',
+    splice_drop c known d (N.of_nat cl) (map (fun t => honest_item c t k) ts) (v, u)
+      = Ok tt (v', u') /\
+    (* exactly the first [written] items went in; the others were destroyed, once each *)
+    Rep c v' (sp_splice s e (firstn written ts) xs) /\ ufuse u' = None /\
+    filter (fun ev => match ev with EDrop _ => true | _ => false end) (uevents u')
+    = (if c_dg c then rev (map EDrop (skipn written ts)) else [])
+      ++ (if c_dg c then rev (map EDrop (firstn (j - i) (skipn i xs))) else [])
+      ++ filter (fun ev => match ev with EDrop _ => true | _ => false end) (uevents u).
+Proof.
+  intros Hwf HA Hf Htoks new_len Hroom d written.
+  destruct (splice_drop_liar_full c v u xs s e i j known ts k cl Hwf HA Hf Htoks Hroom)
+    as (v' & u' & E & HR & _ & _ & F & Ev & _).
+  exists v', u'. split; [exact E|]. split; [exact HR|]. split; [exact F|].
+  change (fun ev : event => match ev with EDrop _ => true | _ => false end) with is_drop.
+  fold written in Ev. rewrite Ev.
+  rewrite !filter_app, !filter_drops_drops, filter_drops_nexts. reflexivity.
 Qed.
